@@ -24,10 +24,8 @@ def find(node, kind, pred=None):
 
 
 def root(fn):
-    t = fn.thir
-    if not t or "root" not in t:
-        return None
-    return t["root"]
+    from . import normal
+    return normal.normalised_root(fn)
 
 
 def peel(e):
